@@ -805,13 +805,9 @@ func TestProtein(t *testing.T)    { pbt.Run(t, genProt, checkModel) }
 // therefore NOT judged; after SetLength to another length (what TestK2PPij does) it must give the
 // matrix of the new parameters.
 //
-// Protein models: a second InitModel on a ProtModel gives non-finite matrices on the tree as found
-// (the exchangeability matrix is turned into the rate matrix in place; props/c18/FINDINGS.md). While
-// KNOWN_FINDINGS.txt lists the key protein-reinit the second and third rounds are made with fresh
-// objects of the same matrix instead (counted under excluded_known); when it is not listed the same
-// object is re-initialised and judged like the nucleotide models.
-
-const keyProtReinit = "protein-reinit"
+// Protein models are judged in the same way (one object initialised three times) since the repair
+// 31adb09; before it a second InitModel gave non-finite matrices (props/c18/FINDINGS.md) and its
+// decomposition could loop for ever, hence pbt.Guarded around every repeated InitModel of a ProtModel.
 
 type reinitCase struct {
 	A mCase `json:"a"`
@@ -957,25 +953,12 @@ func paramString(c mCase) string {
 	return fmt.Sprintf("kappa=%g kappa1=%g kappa2=%g rates=%v pi=%v", c.Kappa, c.Kappa1, c.Kappa2, c.Rates, c.Pi)
 }
 
-// initGuarded: InitModel on an object that was initialised before; on the tree as found the
-// decomposition of the non-finite matrix sometimes never returns (gonum Dgebal), hence the bounded wait
-// (10 s for a call that takes 0.1 ms)
-func initGuarded(m models.Model, c mCase) error {
-	done := make(chan error, 1)
-	go func() {
-		defer func() {
-			if r := recover(); r != nil {
-				done <- fmt.Errorf("panic: %v", r)
-			}
-		}()
-		done <- initModel(m, c)
-	}()
-	select {
-	case e := <-done:
-		return e
-	case <-time.After(10 * time.Second):
-		return fmt.Errorf("did not return within 10 s")
-	}
+// reinitGuarded: InitModel on a ProtModel that was initialised before. Before 31adb09 the
+// decomposition of the then non-finite matrix sometimes never returned (gonum Dgebal): the call is
+// bounded (20 s for a call that takes 0.1 ms; the process exits and the driver re-runs the case)
+func reinitGuarded(test string, m models.Model, c mCase) (err error) {
+	pbt.Guarded(test, c, pbt.WatchdogLimit(20*time.Second), func() { err = initModel(m, c) })
+	return
 }
 
 func checkReinitProtein(c reinitCase) (o pbt.Outcome, err error) {
@@ -988,56 +971,59 @@ func checkReinitProtein(c reinitCase) (o pbt.Outcome, err error) {
 	if err != nil {
 		return o, fmt.Errorf("round 1 (first frequencies): %v", err)
 	}
-	same := !pbt.Known(keyProtReinit)
-	next := func(p mCase) (models.Model, error) {
-		if same {
-			return m, initGuarded(m, p)
+	tOld := c.A.Ts[len(c.A.Ts)/2]
+	old, e := models.NewPij(m, tOld)
+	if e != nil {
+		return o, fmt.Errorf("%s: NewPij fails: %v", name, e)
+	}
+	if e = reinitGuarded("TestReinit", m, c.B); e != nil {
+		return o, fmt.Errorf("%s: InitModel with the second frequencies on a model already initialised and used fails: %v", name, e)
+	}
+	if _, err = checkOn(m, c.B, &o); err != nil {
+		return o, fmt.Errorf("round 2 (model object already initialised and used, then InitModel with the second frequencies): %v", err)
+	}
+	// the Pij object created before, moved to another length
+	qsB, _, err := textbookQ(c.B)
+	if err != nil {
+		return o, err
+	}
+	for _, t := range c.B.Ts {
+		if t == tOld {
+			continue
 		}
-		return buildModel(p) // another object of the same matrix, the first one stays alive
+		if e = old.SetLength(t); e != nil {
+			return o, fmt.Errorf("%s: SetLength fails: %v", name, e)
+		}
+		best := math.Inf(1)
+		var at [2]int
+		for _, q := range qsB {
+			if d, a := maxDiff(read(old, 20), expm(q, t)); d < best {
+				best, at = d, a
+			}
+		}
+		if best > tol {
+			return o, fmt.Errorf("%s: a Pij object created before the model was re-initialised, moved to t=%g: P[%d][%d] = %.12g differs from exp(Qt) of the second frequencies by %.3g", name, t, at[0], at[1], old.Pij(at[0], at[1]), best)
+		}
 	}
-	what := "the same model object re-initialised"
-	if !same {
-		o.Exclude(keyProtReinit)
-		what = "a second model object of the same matrix"
-	}
-	mb, e := next(c.B)
-	if e != nil {
-		return o, fmt.Errorf("%s: InitModel with the second frequencies (%s): %v", name, what, e)
-	}
-	if _, err = checkOn(mb, c.B, &o); err != nil {
-		return o, fmt.Errorf("round 2 (%s, second frequencies): %v", what, err)
-	}
-	ma, e := next(c.A)
-	if e != nil {
-		return o, fmt.Errorf("%s: InitModel with the first frequencies again (%s): %v", name, what, e)
+	if e = reinitGuarded("TestReinit", m, c.A); e != nil {
+		return o, fmt.Errorf("%s: InitModel with the first frequencies again fails: %v", name, e)
 	}
 	for k, t := range c.A.Ts {
-		p, e := observe(ma, t)
+		p, e := observe(m, t)
 		if e != nil {
 			return o, fmt.Errorf("%s: NewPij fails: %v", name, e)
 		}
 		if d, at := maxDiff(p, firstA[k]); d > 1e-12 {
-			return o, fmt.Errorf("%s: back to the first frequencies (%s), t=%g: P[%d][%d] = %.15g, it was %.15g the first time", name, what, t, at[0], at[1], p[at[0]][at[1]], firstA[k][at[0]][at[1]])
-		}
-	}
-	// the first object, untouched in the second case, still gives its matrices
-	if !same {
-		for k, t := range c.A.Ts {
-			p, e := observe(m, t)
-			if e != nil {
-				return o, fmt.Errorf("%s: NewPij fails: %v", name, e)
-			}
-			if d, at := maxDiff(p, firstA[k]); d > 1e-12 {
-				return o, fmt.Errorf("%s: after two other objects of the same matrix were initialised, the first object gives P(%g)[%d][%d] = %.15g, it was %.15g", name, t, at[0], at[1], p[at[0]][at[1]], firstA[k][at[0]][at[1]])
-			}
+			return o, fmt.Errorf("%s: back to the first frequencies, t=%g: P[%d][%d] = %.15g, it was %.15g the first time", name, t, at[0], at[1], p[at[0]][at[1]], firstA[k][at[0]][at[1]])
 		}
 	}
 	o.NonTrivial = !sameParams(c.A, c.B)
-	o.Class("protein: %s", what)
+	o.Class("protein: %s then %s", c.A.Regime, c.B.Regime)
 	return o, nil
 }
 
-// TestKnownProteinReinit: minimal reproduction of the finding protein-reinit: LG, InitModel(nil) twice
+// TestKnownProteinReinit: regression of the repaired finding 31adb09: LG, InitModel(nil) twice gave
+// P[0][0] = +Inf. Must pass; prints nothing then.
 func TestKnownProteinReinit(t *testing.T) {
 	c := mCase{Model: "lg", Ts: []float64{0.5}, Split: 0.5, Regime: "model-frequencies"}
 	m, e := buildModel(c)
@@ -1046,23 +1032,18 @@ func TestKnownProteinReinit(t *testing.T) {
 		return
 	}
 	var o pbt.Outcome
-	err := initGuarded(m, c)
+	err := reinitGuarded("TestKnownProteinReinit", m, c)
 	if err == nil {
 		_, err = pbt.Eval(c, func(c mCase) (pbt.Outcome, error) {
 			_, e := checkOn(m, c, &o)
 			return o, e
 		})
 	}
-	o.Classes = append(o.Classes, fmt.Sprintf("reproduction %s fails=%v", keyProtReinit, err != nil))
-	pbt.Note(t, c, o)
 	if err != nil {
-		what := fmt.Sprintf("a ProtModel initialised twice (LG, InitModel(nil); InitModel(nil)) does not give a transition matrix: %v", err)
-		if pbt.Known(keyProtReinit) {
-			pbt.KnownFinding(t, keyProtReinit, what)
-		} else {
-			pbt.Fail(t, c, "%s", what)
-		}
+		pbt.Fail(t, c, "a ProtModel initialised twice (LG, InitModel(nil); InitModel(nil)) does not give a transition matrix: %v", err)
+		return
 	}
+	pbt.Note(t, c, o)
 	pbt.Complete(t)
 }
 
